@@ -243,3 +243,8 @@ package core
 
 //@ func assoc_in(hm, posVector, data) (r, err)
 //@   ensures implies(len(posVector.Val) == 0, err == nil && r == hm)
+
+// throw: the argument is what a catch clause receives (an error as it is, any other value wrapped)
+//@ func throw(a) (r, e)
+//@   panics never
+//@   ensures r == nil && e != nil && thrownOf(e) == thrownOf(a)
